@@ -34,6 +34,8 @@ def excName : Exc → String
   | .other 2 => "E2"
   | .other 3 => "BE"
   | .other 4 => "FE"
+  | .other 5 => "KI"
+  | .other 6 => "SE"
   | .other 9001 => "AssertionError"
   | .other 9002 => "InvalidState"
   | .other _ => "Other"
@@ -44,6 +46,8 @@ def parseExc (s : String) : Option Exc :=
   | "E2" => some (.other 2)
   | "BE" => some (.other 3)
   | "FE" => some (.other 4)
+  | "KI" => some (.other 5)
+  | "SE" => some (.other 6)
   | "Cancelled" => some (.cancelled 0)
   | "GenExit" => some .genExit
   | "SyncAbort" => some .syncAbort
